@@ -542,8 +542,8 @@ impl E2Run for Route {
 
     fn budget(&self, tier: &Tier) -> (u64, u64) {
         match tier {
-            Tier::Quick => (6_000, 60),
-            Tier::Thorough => (1_000_000, 3000),
+            Tier::Quick => (100_000, 50),
+            Tier::Thorough => (8_000_000, 3000),
         }
     }
 
